@@ -90,7 +90,14 @@ func (g *Exec) smallNum() *awk.Node {
 func (g *Exec) fieldIndex() *awk.Node {
 	switch g.n(0, 11, "fik") {
 	case 11:
-		return g.edgeNum() // constant-field shortcuts at and beyond the integer edges
+		// constant-field shortcuts at and beyond the integer edges; only magnitudes far above the
+		// field limit (reads give "", assignments fail): a field number near 1e6 would be legal and
+		// make every record a megabyte
+		n := edgeNums[g.n(4, len(edgeNums)-1, "fedge")]
+		if g.n(0, 3, "feneg") == 0 {
+			return awk.UnaryN("-", awk.NumN(n))
+		}
+		return awk.NumN(n)
 	case 8, 9, 10:
 		return awk.NumN(float64(g.n(0, 5, "fi")))
 	case 0:
